@@ -85,14 +85,15 @@ SHAPES = [
     "pk(A)", "pkh(A)", "wpkh(A)", "sh(wpkh(A))",
     "multi(K,N)", "sh(multi(K,N))", "wsh(multi(K,N))", "sh(wsh(multi(K,N)))",
     "sortedmulti(K,N)", "sh(sortedmulti(K,N))", "wsh(sortedmulti(K,N))", "sh(wsh(sortedmulti(K,N)))",
-    "wsh(pk(A))", "sh(pk(A))", "sh(wsh(pk(A)))",
+    "wsh(pk(A))", "sh(pk(A))", "sh(wsh(pk(A)))", "sh(pkh(A))", "wsh(pkh(A))", "sh(wsh(pkh(A)))",
     "tr(A)", "tr(A,pk(B))", "tr(NUMS,pk(A))", "tr(A,{pk(B),pk(C)})", "tr(NUMS,{pk(A),{pk(B),pk(C)}})",
     "tr(NUMS,multi_a(K,N))", "tr(A,sortedmulti_a(K,N))", "tr(NUMS,{multi_a(K,N),pk(A)})",
     "tr(NUMS,and_v(v:pk(A),pk(B)))", "tr(NUMS,and_v(v:pk(A),older(5)))",
     "wsh(and_v(v:pk(A),pk(B)))", "wsh(or_d(pk(A),and_v(v:pk(B),older(5))))", "wsh(thresh(2,pk(A),s:pk(B),s:pk(C)))",
     "wsh(and_v(v:pk(A),after(500)))", "sh(wsh(or_b(pk(A),s:pk(B))))", "wsh(andor(pk(A),pk(B),and_v(v:pk(C),older(5))))",
 ]
-# the candidate defect reported for C10: the generic finalizer closes over these with a spend its own engine refuses
+# repaired in /repo f2a4dfc2 (kept as a keyed regression, with and without the solver): the generic finalizer closed
+# these with a spend its own engine refuses
 DEFECT_SHAPES = {"sh(pkh(A))": "finalize.sh_pkh.pubkey_push_missing",
                  "wsh(pkh(A))": "finalize.sh_pkh.pubkey_push_missing",
                  "sh(wsh(pkh(A)))": "finalize.sh_pkh.pubkey_push_missing"}
